@@ -29,7 +29,28 @@ from .values import (
     array_index,
     to_boolean,
 )
-from .errors import JSError, JSTypeError, MemoryLimitError, TimeLimitError
+from .errors import JSError, JSRangeError, JSTypeError, MemoryLimitError, TimeLimitError
+
+
+# Largest array / typed array (elements) and buffer / string (bytes, characters) a script may
+# ask for in one step; beyond this the host would run out of memory before the script does
+MAX_ELEMENTS = 2**26
+MAX_BYTES = 2**28
+
+
+def to_index(value: JSValue, what: str, limit: int) -> int:
+    """ToIndex: an integer count/offset argument; NaN counts as 0, negative or oversized
+    values are a RangeError (never a host error)."""
+    number = to_number(value) if not isinstance(value, (int, float)) else value
+    if isinstance(number, float):
+        if math.isnan(number):
+            return 0
+        if math.isinf(number):
+            raise JSRangeError(f"Invalid {what}")
+    index = int(number)
+    if index < 0 or index > limit:
+        raise JSRangeError(f"Invalid {what}")
+    return index
 
 
 class Context:
@@ -136,7 +157,12 @@ class Context:
 
     def _console_log(self, *args: JSValue) -> None:
         """Console.log implementation."""
-        print(" ".join(to_string(arg) for arg in args))
+        text = " ".join(to_string(arg) for arg in args)
+        try:
+            print(text)
+        except UnicodeEncodeError:
+            # lone surrogates cannot be written to the host's output stream
+            print(text.encode("utf-8", "backslashreplace").decode("utf-8"))
 
     def _create_object_constructor(self) -> JSCallableObject:
         """Create the Object constructor with static methods."""
@@ -437,8 +463,11 @@ class Context:
         array_prototype._prototype = self._object_prototype
 
         def array_constructor(*args):
-            if len(args) == 1 and isinstance(args[0], (int, float)):
-                arr = JSArray(int(args[0]))
+            if len(args) == 1 and isinstance(args[0], (int, float)) and not isinstance(args[0], bool):
+                length = args[0]
+                if isinstance(length, float) and (math.isnan(length) or math.isinf(length) or length != int(length)):
+                    raise JSRangeError("Invalid array length")
+                arr = JSArray(to_index(length, "array length", MAX_ELEMENTS))
             else:
                 arr = JSArray()
                 for arg in args:
@@ -880,7 +909,8 @@ class Context:
 
         def fromCharCode_fn(*args):
             """String.fromCharCode - create string from char codes."""
-            return "".join(chr(to_integer(arg)) for arg in args)
+            # ToUint16 of every argument
+            return "".join(chr(to_integer(arg) % 65536) for arg in args)
 
         string_constructor.set("fromCharCode", fromCharCode_fn)
 
@@ -1031,18 +1061,31 @@ class Context:
             if not args:
                 return array_class(0)
             arg = args[0]
-            if isinstance(arg, (int, float)):
+            if not isinstance(arg, (JSObject, JSFunction)) and not callable(arg):
                 # new Int32Array(length)
-                return array_class(int(arg))
+                return array_class(to_index(arg, "typed array length", MAX_ELEMENTS))
             elif isinstance(arg, JSArrayBuffer):
                 # new Int32Array(buffer, byteOffset?, length?)
                 buffer = arg
-                byte_offset = int(args[1]) if len(args) > 1 else 0
                 element_size = array_class._element_size
+                byte_offset = (
+                    to_index(args[1], "offset", MAX_BYTES) if len(args) > 1 else 0
+                )
+                if byte_offset % element_size != 0 or byte_offset > buffer.byteLength:
+                    raise JSRangeError(
+                        f"Start offset of {name} should be a multiple of {element_size} "
+                        "inside the buffer"
+                    )
 
-                if len(args) > 2:
-                    length = int(args[2])
+                if len(args) > 2 and args[2] is not UNDEFINED:
+                    length = to_index(args[2], "typed array length", MAX_ELEMENTS)
+                    if byte_offset + length * element_size > buffer.byteLength:
+                        raise JSRangeError(f"Invalid typed array length: {length}")
                 else:
+                    if (buffer.byteLength - byte_offset) % element_size != 0:
+                        raise JSRangeError(
+                            f"Byte length of {name} should be a multiple of {element_size}"
+                        )
                     length = (buffer.byteLength - byte_offset) // element_size
 
                 result = array_class(length)
@@ -1086,7 +1129,7 @@ class Context:
         from .values import JSArrayBuffer
 
         def constructor_fn(*args):
-            length = int(args[0]) if args else 0
+            length = to_index(args[0], "array buffer length", MAX_BYTES) if args else 0
             return JSArrayBuffer(length)
 
         constructor = JSCallableObject(constructor_fn)
